@@ -113,7 +113,7 @@ theorem stepWtTake_some {c : Cfg} {s s' : St} (h : stepWtTake c s = some s') :
   · simp at h
 
 theorem stepWtDone_some {c : Cfg} {s s' : St} (h : stepWtDone c s = some s') :
-    depsOk c s .Wt = true ∧ s.wblock = 0 ∧ s.wt = (if c.pidfd then .taken else .started) ∧
+    depsOk c s .Wt = true ∧ s.wblock = 0 ∧ s.wt = c.lastPc ∧
     ∃ st, s.status = some st ∧ s' = { s with wt := .done st } := by
   unfold stepWtDone at h
   split at h
@@ -215,7 +215,9 @@ theorem stepCStep_some {c : Cfg} {s s' : St} (h : stepCStep c s = some s') :
     · rename_i bs r hs; simp at h; exact .emitNull bs r hs h.symm
     · rename_i d bs r hd hs; simp at h
       refine .emit d bs r hs ?_ h.symm
-      intro hn; subst hn; exact hd _ _ hs
+      intro hn; subst hn
+      trace_state
+      exact hd _ _ hs
     · rename_i r hs; simp at h; exact .nop r hs h.symm
     · rename_i code r hs; simp at h; exact .exit code r hs h.symm
     · rename_i sg r hs; simp at h; exact .kill sg r hs h.symm
